@@ -201,6 +201,15 @@ def gen_factory(tier):
             ops.append(op_dump())
             yield Case("c%d" % n, ops, {"kind": "code", "c": c})
             n += 1
+        # G8: hex(value, width) over value x width lattices (the width is a count of digits, not an allocation)
+        hv = [0, 1, 9, 10, 255, 256, 4095, 2 ** 32, 2 ** 32 + 1, MAX, MIN, -1, -255, None]
+        hw = [None, MIN, -70000, -5, -1, 0, 1, 2, 3, 4, 8, 15, 16, 17, 20, 32, 64, 255, 256, 65536, 2 ** 31, 2 ** 32 + 3, MAX]
+        for v in hv:
+            for w in hw:
+                ops = [op_ctx(), op_setvar("P", ispec(v)), op_setvar("Q", ispec(w)),
+                       op_run(guarded("hex(p, q)", "r0")), op_run(guarded("hex(p)", "r1")), op_run(guarded("hex(p + 0, q + 0)", "r2")), op_dump()]
+                yield Case("h%d" % n, ops, {"kind": "hexw", "v": v, "w": w})
+                n += 1
     return gen
 
 
@@ -407,6 +416,24 @@ def check(case, res):
             g = val(dump, "R4")
             if (f < 0 and g[0] != "N") or (f >= 0 and g != ("i", f)):
                 bad("model:strpos2", "strpos(x,y) gave %r, expected %r" % (g, f))
+        return vs, True
+
+    if kind == "hexw":
+        v, w = m["v"], m["w"]
+        for k in (0, 1, 2):
+            if st[3 + k].get("r") not in ("ok", "rerr"):
+                bad("not-total:hex", "%s" % st[3 + k])
+        if v is None:
+            for k in (0, 1, 2):
+                if val(dump, "R%d" % k)[0] != "N":
+                    bad("model:hex-null", "hex of a null value gave %r" % (val(dump, "R%d" % k),))
+            return vs, True
+        digits = ("%x" % (v % (1 << 64))).encode()
+        width = 0 if w is None else min(max(w, 0), 16)
+        want = digits.rjust(width, b"0")
+        for k, ww in ((0, want), (1, digits), (2, want)):
+            if val(dump, "R%d" % k) != ("s", ww):
+                bad("model:hex", "hex(%r%s) gave %r, expected %r" % (v, "" if k == 1 else ", %r" % w, val(dump, "R%d" % k), ww))
         return vs, True
 
     if kind == "numstr":
